@@ -44,7 +44,7 @@ func loadRepo(repo string, overlay map[string][]byte, withControls bool) (*Ctx, 
 		Dir:     repo,
 		Tests:   false,
 		Overlay: overlay,
-		Env:     append(os.Environ(), "GOWORK=off", "GOFLAGS=-mod=mod", "GOPROXY=off", "GOSUMDB=off", "GOTOOLCHAIN=local"),
+		Env:     append(os.Environ(), "GOWORK=off", "GOFLAGS=-mod=mod", "GOPROXY=off", "GOSUMDB=off", "GOTOOLCHAIN=local", "PATH="+goPath()),
 	}
 	pkgs, err := packages.Load(cfg, "./...")
 	if err != nil {
@@ -126,6 +126,16 @@ func loadRepo(repo string, overlay map[string][]byte, withControls bool) (*Ctx, 
 		}
 	}
 	return c, nil
+}
+
+// goPath puts the only toolchain that can load the repository offline (go1.26.8) first on PATH.
+func goPath() string {
+	p := os.Getenv("PATH")
+	const tc = "/opt/veriftools/go1.26.8/bin"
+	if _, err := os.Stat(tc); err == nil && !strings.HasPrefix(p, tc) {
+		return tc + string(os.PathListSeparator) + p
+	}
+	return p
 }
 
 // CallGraph builds (once) the VTA call graph refined from CHA; kind "cha" gives plain CHA.
